@@ -148,7 +148,7 @@ def check_c15(seed, tier):
                                     fails.append(_f("C15", "C15.bulk", name, "add_platforms did not append the platforms in order", case, seed))
                             elif kind == "add_platforms_ch":
                                 its = [A.item(rng, 50 + i) for i in range(rng.randint(1, 3))]
-                                chs = rng.sample([c for c in range(40, 80)], len(its))
+                                chs = rng.sample([c for c in range(40, 120) if c not in [int(x) for x, _ in before]], len(its))
                                 b.add_platforms(its, chs)
                                 after = A.pairs(b)
                                 if [(int(c), id(p)) for c, p in after] != [(int(c), id(p)) for c, p in before] + [(c, id(p)) for c, p in zip(chs, its)]:
